@@ -78,6 +78,10 @@ type c06Case struct {
 	Text kit.B   // the spelling of Expr handed to NewFilter
 	Expr c06Node // what Text means
 	Res  c06Res
+	// Pre: results the SAME Filter object is applied to (and judged on)
+	// before Res, as a command streaming a file through one filter does. What
+	// a filter selects from a result is a function of that result alone.
+	Pre []c06Res `json:",omitempty"`
 }
 
 // ---------------------------------------------------------------------------
@@ -387,13 +391,33 @@ func c06Check(c c06Case) *kit.Fail {
 	if err != nil {
 		return kit.Failf("valid-filter-rejected", "NewFilter(%q): %v", text, err)
 	}
+	for k := range c.Pre {
+		pr := &c.Pre[k]
+		want := make([]bool, len(pr.Vals))
+		for i := range want {
+			want[i] = c06Eval(&c.Expr, pr, i)
+		}
+		if fl := c06Observe(f, pr, want, fmt.Sprintf("filter %q reused, result %d of %d: %q cfg %v", text, k+1, len(c.Pre)+1, pr.Name, pr.Cfg)); fl != nil {
+			fl.Sig = "reused-filter-" + fl.Sig
+			return fl
+		}
+	}
 	n := len(c.Res.Vals)
 	want := make([]bool, n)
 	for i := range want {
 		want[i] = c06Eval(&c.Expr, &c.Res, i)
 	}
 	c06CountCase(&c)
-	return c06Observe(f, &c.Res, want, fmt.Sprintf("filter %q on %q cfg %v", text, c.Res.Name, c.Res.Cfg))
+	what := fmt.Sprintf("filter %q on %q cfg %v", text, c.Res.Name, c.Res.Cfg)
+	if len(c.Pre) > 0 {
+		kit.Count("C06 cases with one Filter applied to several results in turn", 1)
+		what = fmt.Sprintf("filter %q reused, result %d of %d (earlier: %d results with the same units): %q cfg %v", text, len(c.Pre)+1, len(c.Pre)+1, len(c.Pre), c.Res.Name, c.Res.Cfg)
+	}
+	fl := c06Observe(f, &c.Res, want, what)
+	if fl != nil && len(c.Pre) > 0 {
+		fl.Sig = "reused-filter-" + fl.Sig
+	}
+	return fl
 }
 
 // ---------------------------------------------------------------------------
@@ -910,6 +934,17 @@ func c06Gen(r *kit.Rand, i int) c06Case {
 	c.Res = c06GenRes(r, n)
 	c.Expr = c06GenExpr(r, &c.Res, r.Range(0, 5))
 	c.Text = kit.B(c06Spell(r, &c.Expr))
+	if r.Chance(0.35) {
+		// earlier results through the same Filter: other names and
+		// configurations, mostly the SAME sequence of units
+		for k := r.Range(1, 3); k > 0; k-- {
+			pr := c06GenRes(r, n)
+			if r.Chance(0.8) {
+				pr.Vals = append([]c06Meas(nil), c.Res.Vals...)
+			}
+			c.Pre = append(c.Pre, pr)
+		}
+	}
 	return c
 }
 
